@@ -327,3 +327,9 @@ for _pid in ("C03", "C10", "C17", "C18"):
 _AT2 = [("contracts.ufunc", n) for n in _U.ARCTAN2]
 PLANS["C01"].proofs += _AT2
 PLANS["C04"].proofs += _AT2
+
+# item assignment a[i] = q: refused for another dimension with the target untouched (C01, C18), stored as the same
+# physical quantity in the target's unit otherwise
+_SETITEM = [("contracts.accessors", "SetItem"), ("contracts.accessors", "SetItemArray")]
+PLANS["C01"].proofs += _SETITEM
+PLANS["C18"].proofs += _SETITEM
